@@ -84,6 +84,10 @@ class ExcHierarchy:
 
 # -- graph --------------------------------------------------------------------
 
+_NEVER_NONE_EXTERNALS = {"posixpath.join", "posixpath.normpath", "os.path.join", "os.path.normpath", "os.path.abspath", "str", "repr", "bytes",
+                         "urllib.parse.quote", "urllib.parse.unquote", "urllib.parse.urljoin", "list", "tuple", "dict", "set", "sorted"}
+
+
 def _walk_own(fn):
     """Nodes of a function body, not descending into nested functions / classes / lambdas."""
     todo = list(fn.body) if hasattr(fn, "body") and isinstance(fn.body, list) else []
@@ -490,6 +494,8 @@ class CFG:
         f_all: List[Tuple[Node, str]] = []
         def vclass(v):
             c = self._value_class(v)
+            if c is None and isinstance(v, ast.Call) and (dotted(v.func) or "") in _NEVER_NONE_EXTERNALS:
+                return "notnone"
             if c is None and isinstance(v, ast.Call) and dotted(v.func):
                 # an instance of a program class is never None
                 try:
